@@ -85,7 +85,9 @@ def build(stream, p):
     k, seed = p["k"], p["seed"]
 
     def run():
-        a = dsw.create_random_shuffles(observed_length=k, random_seed=seed)
+        first = dsw.create_random_shuffles(observed_length=k, random_seed=seed)
+        a = first.copy()
+        first[...] = 0                 # the returned table belongs to the caller: overwriting it must not affect later calls
         np.random.random(size=3)       # disturb the global random state between the two calls
         b = dsw.create_random_shuffles(observed_length=k, random_seed=seed)
         return a, b
